@@ -43,7 +43,9 @@ PROP = Prop(
                # the guesser's OMEN loader returns the n-grams of IP.level / CP.level unchanged, grouped by level (and prefix)
                (oml.IO + ':_load_ngrams#ip', None), (oml.IO + ':_load_ngrams#cp', None),
                # ... and so does the scorer's OMEN loader
-               (oml.SC + '._load_omen', None)],
+               (oml.SC + '._load_omen', None),
+               # the scorer's terminal reader: every value with the probability of its line
+               (oml.SGIO + ':_load_from_file', gld.install_reader)],
     lemmas=lambda: gld.groups_desc.lemmas() + oml.lemmas(),
     setup=install,
     effects=encoding_frame,
@@ -61,8 +63,8 @@ PROP = Prop(
         'codecs / universal-newline iteration when writer and reader use the same encoding; str.encode of such text does not raise',
         "rstrip()/split('\\t')/float(repr(p)) are uninterpreted in the deductive part: that rstrip only removes the newline and split yields exactly "
         'two fields for a TAB-free value is validated by the bounded round trip, not proved',
-        'the scorer loaders (lib_scorer/grammar_io.py, OmenScorer._load_omen) and the guesser\'s EP.level / LN.level / config readers are covered by the encoding frame '
-        'and the bounded stand-in only; _load_ngrams is under contract for IP.level and CP.level',
+        'under contract: the guesser\'s _load_from_file and _load_ngrams (IP.level, CP.level), the scorer\'s _load_from_file and OmenScorer._load_omen; the remaining readers '
+        '(EP.level, alphabet, the multi-file drivers) are covered by the encoding frame and the bounded stand-in only',
     ],
     explanation='Deductive: check_valid accepts only non-empty passwords without TAB, C0 controls or any character at which splitlines()/codecs break a '
                 'line (set recomputed exhaustively each run); the writer puts exactly one line value TAB repr(p) LF per item, one file per key; the '
